@@ -138,8 +138,10 @@ func (c *Ctx) accountLayouts() {
 	// ---- TL form
 	if f := c.mustFn(R, "ton", "AccountID.MarshalTL"); f != nil {
 		c.layoutIs(R, "AccountID.MarshalTL = LE32 workchain | hash32", f, c.byteWrites(f), []byteField{{"", "4", "LE32", "Workchain"}, {"4", "36", "copy", "Address"}})
-		for _, cl := range callsTo(f, "encoding/binary.littleEndian.PutUint32") {
-			c.chainIs(W, "AccountID.MarshalTL workchain = uint32(int32)", cl.Pos(), cl.Call.Args[2], []string{"uint32", "int32"}, "id.Workchain", isFieldLoad("Workchain"))
+		for _, q := range []string{"encoding/binary.littleEndian.PutUint32", "encoding/binary.littleEndian.AppendUint32"} {
+			for _, cl := range callsTo(f, q) {
+				c.chainIs(W, "AccountID.MarshalTL workchain = uint32(int32)", cl.Pos(), cl.Call.Args[2], []string{"uint32", "int32"}, "id.Workchain", isFieldLoad("Workchain"))
+			}
 		}
 	}
 	if f := c.mustFn(R, "ton", "AccountID.UnmarshalTL"); f != nil {
